@@ -67,6 +67,17 @@ func (p *PauseController) UnmarshalJSON(data []byte) error {
 	return nil
 }
 
+func (p *PauseController) MarshalJSON() ([]byte, error) {
+	p.lock.RLock()
+	defer p.lock.RUnlock()
+
+	return json.Marshal(struct {
+		State       PauseState    `json:"state"`
+		StopMessage string        `json:"stop_message"`
+		FailAfter   time.Duration `json:"fail_after"`
+	}{p.State, p.StopMessage, p.FailAfter})
+}
+
 func (p *PauseController) GetState() PauseState {
 	p.lock.RLock()
 	defer p.lock.RUnlock()
